@@ -540,3 +540,8 @@ fn q_empty_vs_closed() {
         kani::cover!(CLOSED);
     }
 }
+
+/// Helper for other harness modules: number of commands parked in the overflow list.
+pub(crate) fn pending_len<T>(s: &Sender<T>) -> usize {
+    s.pending_messages.len()
+}
